@@ -146,7 +146,11 @@ func (b Bytes) Less(v Value) bool {
 		return b.Kind() < v.Kind()
 	}
 
-	return string(b.b) < string(v.(*Bytes).b)
+	c := v.(Bytes)
+	if cmp := bytes.Compare(b.b, c.b); cmp != 0 {
+		return cmp < 0
+	}
+	return b.offset < c.offset
 }
 
 // Negate returns {(negateTag): b}.
